@@ -144,60 +144,103 @@ Proof. apply flat_map_app. Qed.
 Lemma defs_app a b : defs (a ++ b) = defs a ++ defs b.
 Proof. apply map_app. Qed.
 
+(* has-fields case, with the field rules abstract *)
+Section HasFields.
+Variables (names : list str) (FR : grammar) (x : str) (env : bool).
+Hypothesis Hdefs : defs FR = names.
+Hypothesis Hrefs : forallb (fun r => str_in r (names ++ struct_names env)) (grammar_refs FR) = true.
+Hypothesis Hnoe : wf_noempty FR = true.
+Hypothesis Hnd : nodupb names = true.
+Hypothesis Hst : existsb (fun n => str_in n (struct_names env)) names = false.
+
+Let G : grammar := [rule_of_line L_ws] ++ FR ++ [refs_rule names] ++ tail_c x env.
+Let D : list str := n_ws :: names ++ DT env.
+
+Lemma hf_defs : defs G = D.
+Proof.
+  unfold G, D. destruct ws_rule_facts as (Wd & _ & _).
+  rewrite !defs_app, Wd, Hdefs, defs_tail_c. reflexivity.
+Qed.
+
+Lemma hf_subT r : str_in r (n_ws :: DT env) = true -> str_in r D = true.
+Proof.
+  intro Hr. unfold D. cbn [str_in] in Hr |- *. rewrite str_in_app.
+  destruct (str_eqb r n_ws); [reflexivity|]. cbn [orb] in Hr |- *. rewrite Hr. apply orb_true_r.
+Qed.
+
+Lemma hf_subN r : str_in r names = true -> str_in r D = true.
+Proof. intro Hr. unfold D. cbn [str_in]. rewrite str_in_app, Hr. cbn [orb]. apply orb_true_r. Qed.
+
+Lemma hf_subA r : str_in r (names ++ struct_names env) = true -> str_in r D = true.
+Proof.
+  intro Hr. rewrite str_in_app in Hr. apply orb_true_iff in Hr as [Hr|Hr].
+  - apply hf_subN. exact Hr.
+  - apply hf_subT. exact (str_in_sub _ _ _ (struct_DT env) Hr).
+Qed.
+
+Lemma root_in_DT : str_in s_root (n_ws :: DT env) = true.
+Proof. destruct env; vm_compute; reflexivity. Qed.
+
+Lemma hf_root : wf_root G = true.
+Proof. unfold wf_root. rewrite hf_defs. apply hf_subT. exact root_in_DT. Qed.
+
+Lemma hf_refs : wf_refs G = true.
+Proof.
+  unfold wf_refs. rewrite hf_defs. unfold G. destruct ws_rule_facts as (_ & Wr & _).
+  rewrite !grammar_refs_app, Wr. cbn [app]. rewrite !forallb_app.
+  apply andb_true_iff; split; [|apply andb_true_iff; split].
+  - exact (forallb_impl _ _ _ hf_subA Hrefs).
+  - cbn [grammar_refs flat_map]. rewrite app_nil_r, refs_rule_refs.
+    apply forallb_forall. intros r Hr. apply hf_subN. apply str_in_In. exact Hr.
+  - exact (forallb_impl _ _ _ hf_subT (tail_c_refs x env)).
+Qed.
+
+Lemma hf_disjoint n l : forallb (fun d => str_in d (struct_names env)) l = true ->
+  str_in n names = true -> str_in n l = false.
+Proof.
+  intros Hl Hn. destruct (str_in n l) eqn:E; [|reflexivity]. exfalso.
+  pose proof (str_in_sub _ _ _ Hl E) as Q. apply str_in_In in Hn.
+  rewrite (existsb_false_forall _ _ Hst n Hn) in Q. discriminate Q.
+Qed.
+
+Lemma hf_nodup : wf_nodup G = true.
+Proof.
+  unfold wf_nodup. rewrite hf_defs. unfold D.
+  pose proof (DT_nodup env) as Nd. cbn [nodupb] in Nd |- *. apply andb_true_iff in Nd as [Nd1 Nd2].
+  apply negb_true_iff in Nd1.
+  pose proof (DT_struct env) as Hds. cbn [forallb] in Hds. apply andb_true_iff in Hds as [Hws Hds].
+  rewrite str_in_app, Nd1, orb_false_r, nodupb_app, Hnd, Nd2. cbn [andb].
+  apply andb_true_iff. split.
+  - apply negb_true_iff. destruct (str_in n_ws names) eqn:E; [|reflexivity]. exfalso.
+    apply str_in_In in E. rewrite (existsb_false_forall _ _ Hst _ E) in Hws. discriminate Hws.
+  - apply forallb_forall. intros n Hn. apply negb_true_iff. apply hf_disjoint; [exact Hds|]. apply str_in_In. exact Hn.
+Qed.
+
+Lemma hf_noempty : wf_noempty G = true.
+Proof.
+  unfold G. destruct ws_rule_facts as (_ & _ & Wn).
+  rewrite !wf_noempty_app, Wn, Hnoe, tail_c_noempty.
+  unfold wf_noempty at 1. cbn [forallb]. rewrite refs_rule_noempty. reflexivity.
+Qed.
+
+Lemma hf_wf : wf G = true.
+Proof. apply wf_split; [exact hf_root|exact hf_refs|exact hf_nodup|exact hf_noempty]. Qed.
+End HasFields.
+
+Lemma nofields_wf x env :
+  wf ([rule_of_line L_ws] ++ [] ++ [rule_of_line L_content_nf] ++ env_rules x env ++ [root_rule]) = true.
+Proof. destruct env; vm_compute; reflexivity. Qed.
+
 Theorem grammar_of_wf s env : safe_schema s env = true -> wf (grammar_of s env) = true.
 Proof.
   intro H. destruct (grammar_of_env_rules s env H) as [x ->].
   destruct (sc_fields s) as [|f0 fs0] eqn:Ef.
-  { (* no field: the whole grammar is concrete *)
-    cbn [map is_nil app]. destruct env; vm_compute; reflexivity. }
+  { exact (nofields_wf x env). }
   cbn [is_nil]. rewrite <- Ef.
   pose proof (all_fields_ok _ _ H) as Hall.
   destruct (safe_schema_parts _ _ H) as [_ Hnd Hst _ _ _ _].
-  set (names := rule_names s) in *. set (allowed := names ++ struct_names env) in *.
-  change ([refs_rule names; rule_of_line L_content_f] ++ env_rules x env ++ [root_rule])
-    with ([refs_rule names] ++ tail_c x env).
-  set (D := n_ws :: names ++ DT env).
-  destruct ws_rule_facts as (Wd & Wr & Wn).
-  assert (HD : defs ([rule_of_line L_ws] ++ map field_rule (sc_fields s) ++ [refs_rule names] ++ tail_c x env) = D).
-  { rewrite !defs_app, Wd, (defs_fields _ _ Hall), defs_tail_c. reflexivity. }
-  (* inclusions into D *)
-  assert (subT : forall r, str_in r (n_ws :: DT env) = true -> str_in r D = true).
-  { intros r Hr. unfold D. cbn [str_in] in *. rewrite str_in_app.
-    destruct (str_eqb r n_ws); [reflexivity|]. cbn [orb] in *. rewrite Hr. apply orb_true_r. }
-  assert (subN : forall r, str_in r names = true -> str_in r D = true).
-  { intros r Hr. unfold D. cbn [str_in]. rewrite str_in_app, Hr. cbn. apply orb_true_r. }
-  assert (subA : forall r, str_in r allowed = true -> str_in r D = true).
-  { intros r Hr. unfold allowed in Hr. rewrite str_in_app in Hr. apply orb_true_iff in Hr as [Hr|Hr].
-    - apply subN. exact Hr.
-    - apply subT. exact (str_in_sub _ _ _ (struct_DT env) Hr). }
-  apply wf_split.
-  - (* root *)
-    unfold wf_root. rewrite HD. apply subT. destruct env; reflexivity.
-  - (* references *)
-    unfold wf_refs. rewrite HD, !grammar_refs_app, Wr. cbn [app]. rewrite !forallb_app.
-    apply andb_true_iff; split; [|apply andb_true_iff; split].
-    + exact (forallb_impl _ _ _ subA (refs_fields _ _ Hall)).
-    + cbn [grammar_refs flat_map]. rewrite app_nil_r, refs_rule_refs.
-      apply forallb_forall. intros r Hr. apply subN. apply str_in_In. exact Hr.
-    + exact (forallb_impl _ _ _ subT (tail_c_refs x env)).
-  - (* no duplicate *)
-    unfold wf_nodup. rewrite HD. unfold D.
-    pose proof (DT_nodup env) as Nd. cbn [nodupb] in Nd |- *. apply andb_true_iff in Nd as [Nd1 Nd2].
-    apply negb_true_iff in Nd1.
-    assert (Hdis : forall n l, forallb (fun d => str_in d (struct_names env)) l = true ->
-                               str_in n names = true -> str_in n l = false).
-    { intros n l Hl Hn. destruct (str_in n l) eqn:E; [|reflexivity]. exfalso.
-      pose proof (str_in_sub _ _ _ Hl E) as Q. apply str_in_In in Hn.
-      rewrite (existsb_false_forall _ _ Hst n Hn) in Q. discriminate Q. }
-    pose proof (DT_struct env) as Hds. cbn [forallb] in Hds. apply andb_true_iff in Hds as [Hws Hds].
-    rewrite str_in_app, Nd1, orb_false_r, nodupb_app, Hnd, Nd2. cbn [andb].
-    apply andb_true_iff. split.
-    + apply negb_true_iff. destruct (str_in n_ws names) eqn:E; [|reflexivity]. exfalso.
-      apply str_in_In in E. rewrite (existsb_false_forall _ _ Hst _ E) in Hws. discriminate Hws.
-    + apply forallb_forall. intros n Hn. apply negb_true_iff. apply Hdis; [exact Hds|]. apply str_in_In. exact Hn.
-  - (* no empty alternative *)
-    rewrite !wf_noempty_app, Wn, (noempty_fields _ _ Hall), tail_c_noempty.
-    unfold wf_noempty at 1. cbn [forallb]. rewrite refs_rule_noempty. reflexivity.
+  exact (hf_wf (rule_names s) (map field_rule (sc_fields s)) x env
+               (defs_fields _ _ Hall) (refs_fields _ _ Hall) (noempty_fields _ _ Hall) Hnd Hst).
 Qed.
 
 (* ---- main theorems ---------------------------------------------------------------------------------------------- *)
